@@ -17,6 +17,8 @@
 //	       flush=1: the bytes written before Flush reached the client while the handler was still running
 //	       hijack=1: Hijack() returned a connection (the handler then writes the raw response itself)
 //	       fi/hi: the handler's ResponseWriter implements http.Flusher / http.Hijacker ("-" = handler not invoked)
+//	    -> err transport:<class> invoked=<n> [panic=<msg>] | err body:<class> status=<code> invoked=<n>   (no complete response)
+//	       an exchange that hits the 25 s client timeout is repeated once as a fresh request
 package main
 
 import (
@@ -408,7 +410,7 @@ func (s *scen) prime(status string) error {
 	_ = resp.Body.Close()
 	select {
 	case <-st.done:
-	case <-time.After(10 * time.Second):
+	case <-time.After(30 * time.Second):
 		return fmt.Errorf("prime not finished")
 	}
 	return nil
@@ -448,10 +450,25 @@ func (s *scen) Op(f []string) string {
 		return "bad-op"
 	}
 	body := hx.KVInt(f, "body", 0)
+	out, timedOut := s.exchange(body)
+	if timedOut {
+		// Machine-wide stalls of tens of seconds (memory exhaustion by unrelated processes) have been observed; the
+		// exchange is repeated once as a fresh request.  A reproducible hang times out again and is reported.
+		out, _ = s.exchange(body)
+	}
+	return out
+}
+
+func isTimeout(err error) bool {
+	c := errClass(err)
+	return c == "Timeout_exceeded" || c == "deadline_exceeded"
+}
+
+func (s *scen) exchange(body int) (string, bool) {
 	resp, st, err := s.do(body, nil)
 	if err != nil {
 		<-waitOr(st.done, 500*time.Millisecond)
-		return fmt.Sprintf("err transport:%s invoked=%d%s", errClass(err), atomic.LoadInt32(&st.invoked), panicNote(st))
+		return fmt.Sprintf("err transport:%s invoked=%d%s", errClass(err), atomic.LoadInt32(&st.invoked), panicNote(st)), isTimeout(err)
 	}
 	atomic.StoreInt32(&st.hdrSeen, 1)
 	sum := adler32.New()
@@ -475,12 +492,12 @@ func (s *scen) Op(f []string) string {
 	_ = resp.Body.Close()
 	<-waitOr(st.done, 3*time.Second)
 	if rerr != nil {
-		return fmt.Sprintf("err body:%s status=%d invoked=%d%s", errClass(rerr), resp.StatusCode, atomic.LoadInt32(&st.invoked), panicNote(st))
+		return fmt.Sprintf("err body:%s status=%d invoked=%d%s", errClass(rerr), resp.StatusCode, atomic.LoadInt32(&st.invoked), panicNote(st)), isTimeout(rerr)
 	}
 	inv := atomic.LoadInt32(&st.invoked)
 	fi, hi := atomic.LoadInt32(&st.fi), atomic.LoadInt32(&st.hi)
 	return fmt.Sprintf("status=%d invoked=%d body=%d:%08x hdr=%s flush=%s hijack=%s fi=%s hi=%s", resp.StatusCode, inv, total, sum.Sum32(),
-		canonHeaders(resp.Header), tri(atomic.LoadInt32(&st.flush)), tri(atomic.LoadInt32(&st.hijack)), tri(fi), tri(hi))
+		canonHeaders(resp.Header), tri(atomic.LoadInt32(&st.flush)), tri(atomic.LoadInt32(&st.hijack)), tri(fi), tri(hi)), false
 }
 
 func panicNote(st *reqState) string {
@@ -569,7 +586,7 @@ func newScenario(cfg []string) (hx.Handler, string) {
 	s.client = &http.Client{
 		Transport:     &http.Transport{DisableKeepAlives: true, DisableCompression: true},
 		CheckRedirect: func(*http.Request, []*http.Request) error { return http.ErrUseLastResponse },
-		Timeout:       15 * time.Second,
+		Timeout:       25 * time.Second,
 	}
 	if intervene >= 0 {
 		switch specs[intervene].kind {
@@ -589,7 +606,7 @@ func newScenario(cfg []string) (hx.Handler, string) {
 			}()
 			select {
 			case <-s.holdEntered:
-			case <-time.After(10 * time.Second):
+			case <-time.After(30 * time.Second):
 				s.Close()
 				return nil, "err prime hold"
 			}
@@ -613,6 +630,6 @@ func main() {
 		flushWait = time.Duration(hx.Atoi(v)) * time.Millisecond
 	}
 	// every op is a real HTTP exchange; a loaded machine has been seen to stall one for several seconds
-	hx.OpTimeout = 20 * time.Second
+	hx.OpTimeout = 60 * time.Second
 	hx.Main(newScenario)
 }
